@@ -108,20 +108,25 @@ structure PercCfg where
   ttlOverflowGuard : Bool
   /-- `commitKey`: `lock.MinCommitTs <op> commitVersion` ⇒ refused -/
   minCommitOp : CmpOp
+  /-- `prewriteMutation`: a key already locked by the same transaction is left as it is (duplicate
+  request); as found, the lock and the default-CF entry are written again from the request -/
+  prewriteKeepsOwnLock : Bool
   deriving DecidableEq, Repr
 
 def PercCfg.good : PercCfg :=
   { getSkipsRollback := true, getSkipsLock := true, scanSkipsRollback := true, scanSkipsLock := true,
     scanSeesLockOnlyKeys := true, getLockOp := .ge, scanLockOp := .ge, getTsOp := .le, scanVerOp := .gt,
     commitChecksRollback := true, conflictOp := .ge,
-    rollbackChecksOwner := true, ttlOp := .ge, ttlOverflowGuard := true, minCommitOp := .gt }
+    rollbackChecksOwner := true, ttlOp := .ge, ttlOverflowGuard := true, minCommitOp := .gt,
+    prewriteKeepsOwnLock := true }
 
 /-- The tree as found (every finding flag at its bad value). -/
 def PercCfg.asis : PercCfg :=
   { getSkipsRollback := false, getSkipsLock := false, scanSkipsRollback := false, scanSkipsLock := false,
     scanSeesLockOnlyKeys := false, getLockOp := .ge, scanLockOp := .ge, getTsOp := .le, scanVerOp := .gt,
     commitChecksRollback := false, conflictOp := .ge,
-    rollbackChecksOwner := false, ttlOp := .ge, ttlOverflowGuard := false, minCommitOp := .gt }
+    rollbackChecksOwner := false, ttlOp := .ge, ttlOverflowGuard := false, minCommitOp := .gt,
+    prewriteKeepsOwnLock := false }
 
 /-- comparison operators of the read path -/
 def PercCfg.ReadOps (c : PercCfg) : Prop :=
@@ -144,6 +149,11 @@ instance PercCfg.decConflictGood (c : PercCfg) : Decidable c.ConflictGood := by 
 
 def PercCfg.CommitGood (c : PercCfg) : Prop := c.conflictOp = .ge ∧ c.commitChecksRollback = true
 instance PercCfg.decCommitGood (c : PercCfg) : Decidable c.CommitGood := by unfold PercCfg.CommitGood; exact inferInstance
+
+/-- what the idempotence of prewrite needs -/
+def PercCfg.ResendGood (c : PercCfg) : Prop :=
+  c.conflictOp = .ge ∧ c.rollbackChecksOwner = true ∧ c.prewriteKeepsOwnLock = true
+instance PercCfg.decResendGood (c : PercCfg) : Decidable c.ResendGood := by unfold PercCfg.ResendGood; exact inferInstance
 
 def PercCfg.OwnerGood (c : PercCfg) : Prop := c.conflictOp = .ge ∧ c.rollbackChecksOwner = true
 instance PercCfg.decOwnerGood (c : PercCfg) : Decidable c.OwnerGood := by unfold PercCfg.OwnerGood; exact inferInstance
@@ -323,11 +333,18 @@ def prewriteWrite (h : PwHdr) (m : Mut) (ks : KS) : KS × Option KeyErr :=
   | .lock => (⟨some (mkLock h .lock), ks.writes, insD ⟨h.start, none⟩ ks.defs⟩, none)
   | .other => (ks, some (.abort .badOp))
 
+/-- the key carries a lock of this very transaction -/
+def ownLock (ks : KS) (start : Nat) : Bool :=
+  match ks.lock with
+  | some l => l.ts == start
+  | none => false
+
 /-- `prewriteMutation` after the empty-key test, on the state of its key -/
 def prewriteK (c : PercCfg) (h : PwHdr) (m : Mut) (ks : KS) : KS × Option KeyErr :=
   match lockedByOther ks h.start with
   | some l => (ks, some (.locked m.key l))
   | none =>
+    if c.prewriteKeepsOwnLock && ownLock ks h.start then (ks, none) else
     match conflictWith c ks h.start with
     | some w => (ks, some (.conflict m.key h.primary w.ts w.start h.start))
     | none => prewriteWrite h m ks
